@@ -722,7 +722,7 @@ def limit_errors_final(prog, chk):
     pt = prog.body("svgdx::transform::process_tags")
     chk.touch(pt)
     vidx = {v: R.enum_variant_index(prog, ERR, v) for v in LIMITS.values()}
-    gens = R.calls_to(pt, lambda c: c.decl_path == "svgdx::transform::EventGen::generate_events")
+    gens = R.calls_to(pt, lambda c: (c.decl_path == "svgdx::transform::EventGen::generate_events" or c.path.endswith(" as svgdx::transform::EventGen>::generate_events")))
     pushes = [(b, t, c) for (b, t, c) in R.calls_to(pt, R.path_endswith("::push")) if "OrderIndex" in t["args"][1].get("m", t["args"][1].get("c", [0, []]))[0:0].__class__.__name__ or True]
     # retry queue = Vec<(OrderIndex, Tag)>::push
     pushes = [(b, t, c) for (b, t, c) in pushes if "svgdx::events::Tag" in c.inst and "OrderIndex" in c.inst]
